@@ -14,8 +14,9 @@ type c14Stream struct {
 	SID    int   `json:"sid"`
 	Side   int   `json:"side"`
 	Unord  bool  `json:"unord,omitempty"`
-	Sizes  []int `json:"sizes"`  // messages written before Close, per cycle reused
-	Cycles int   `json:"cycles"` // close/reopen cycles
+	Sizes  []int `json:"sizes"`           // messages written before Close, per cycle reused
+	Cycles int   `json:"cycles"`          // close/reopen cycles
+	GapMs  int   `json:"gapms,omitempty"` // pause between the first and the second half of the writes of a cycle
 }
 
 type c14Scn struct {
@@ -40,6 +41,7 @@ func genC14(rt *rapid.T) c14Scn {
 	}
 	for i := 0; i < ns; i++ {
 		st := c14Stream{SID: 10 + i, Side: rapid.IntRange(0, 1).Draw(rt, "side"), Unord: rapid.IntRange(0, 3).Draw(rt, "unord") == 0, Cycles: rapid.SampledFrom([]int{1, 1, 2, 3, 4}).Draw(rt, "cycles")}
+		st.GapMs = rapid.SampledFrom([]int{0, 0, 30, 300, 1200, 2500}).Draw(rt, "gapms")
 		nm := rapid.IntRange(0, 6).Draw(rt, "nmsgs")
 		for k := 0; k < nm; k++ {
 			st.Sizes = append(st.Sizes, rapid.SampledFrom([]int{1, 50, 1200, 3000, lim}).Draw(rt, "size"))
@@ -148,7 +150,29 @@ func runC14(t *testing.T, x c14Scn, verbose bool) vfCase {
 						h.s.SetReliabilityParams(true, ReliabilityTypeReliable, 0)
 					}
 					l.w = h.s
-					for _, sz := range st.Sizes {
+					for _, sz := range st.Sizes[:len(st.Sizes)/2] {
+						w := s.doWrite(st.Side, uint16(st.SID), sz, 53)
+						if w.Err != "" {
+							c.fail("write-failed", "cycle %d: write on reopened stream %d failed: %s", cyc, st.SID, w.Err)
+							return
+						}
+						l.writes = append(l.writes, w)
+					}
+					ls = append(ls, l)
+				}
+				// second half of the writes after a pause (late answers to earlier resets arrive here)
+				maxGap := 0
+				for _, l := range ls {
+					if l.st.GapMs > maxGap {
+						maxGap = l.st.GapMs
+					}
+				}
+				if maxGap > 0 {
+					s.o.settle(time.Duration(maxGap) * time.Millisecond)
+				}
+				for _, l := range ls {
+					st := l.st
+					for _, sz := range st.Sizes[len(st.Sizes)/2:] {
 						w := s.doWrite(st.Side, uint16(st.SID), sz, 53)
 						if w.Err != "" {
 							c.fail("write-failed", "cycle %d: write on reopened stream %d failed: %s", cyc, st.SID, w.Err)
@@ -159,11 +183,10 @@ func runC14(t *testing.T, x c14Scn, verbose bool) vfCase {
 					if s.as[st.Side].BufferedAmount() > 0 {
 						outstandingAtClose = true
 					}
-					if err := h.s.Close(); err != nil {
+					if err := l.w.Close(); err != nil {
 						c.fail("close-failed", "cycle %d: Close on stream %d: %v", cyc, st.SID, err)
 						return
 					}
-					ls = append(ls, l)
 				}
 				// the peers read until EOF; data must all come before it
 				deadline := time.Now().Add(bound)
